@@ -702,8 +702,15 @@ func e2eInner(t *testing.T) {
 			must("link", "set", "veth1b", "down")
 			time.Sleep(200 * time.Millisecond)
 			must("link", "set", "veth1b", "up")
-			for end := time.Now().Add(10 * time.Second); time.Now().Before(end); time.Sleep(20 * time.Millisecond) {
-				for _, f := range tap.snapshot()[mark:] {
+			// Like a real server the observer answers every such REQUEST, retransmissions included: the client opens its receive
+			// socket while its sender goroutine is already transmitting, so an answer that comes back within microseconds can
+			// be lost on a busy machine and is then caught at the retransmission (seen once as a false alarm of this test).
+			answered, handled := 0, mark
+			var until time.Time
+			for end := time.Now().Add(10 * time.Second); time.Now().Before(end) && (answered == 0 || time.Now().Before(until)); time.Sleep(20 * time.Millisecond) {
+				snap := tap.snapshot()
+				for ; handled < len(snap); handled++ {
+					f := snap[handled]
 					if !f.outgoing && len(f.b) > 14+28 && f.b[12] == 0x08 && f.b[13] == 0 && bytes.Equal(f.b[6:12], cliMAC) {
 						if rq := parseReply(f.b[14:]); rq.ok && rq.typ == 3 && rq.msg.ciaddr != 0 {
 							m := build(rq)
@@ -712,10 +719,16 @@ func e2eInner(t *testing.T) {
 								dst = 0xffffffff
 							}
 							inject(cliMAC, otherMAC, 0x0800, udpip(otherIP, dst, 67, 68, 17, 64, m.bytes()))
-							return true
+							if answered == 0 {
+								until = time.Now().Add(2500 * time.Millisecond)
+							}
+							answered++
 						}
 					}
 				}
+			}
+			if answered > 0 {
+				return true
 			}
 			bad("c15", "e2e-no-revalidation", "%s: no rebinding REQUEST within 10 s of the link event\n%s", what, tailStr(cliLog.String(), 500))
 			return false
@@ -728,7 +741,7 @@ func e2eInner(t *testing.T) {
 			lastAck = &x
 			return m
 		}) {
-			time.Sleep(1500 * time.Millisecond)
+			time.Sleep(300 * time.Millisecond) // (answer returns 2.5 s after the first ACK was injected)
 			checkIface("after another server's ACK with a new router and an infinite lease")
 			checkLifetime("after another server's ACK with an infinite lease")
 		}
